@@ -123,10 +123,10 @@ impl Check for KernelSync {
 
     fn info(&self) -> CheckInfo {
         CheckInfo {
-            rule: "1-3 source peers (eBGP / iBGP / RR client, optional add-path towards the DUT, optional GR so that stale marking and purge happen) announcing 2-5 prefixes over 3 shared next hops with attributes from small colliding domains (so that paths tie before the router-id step); ops announce / replace / withdraw (optionally without quiescence before the next op = inside a burst), peer drop and reconnect, an import policy that rewrites every next hop installed / replaced / removed with a soft reset IN of every peer, next-hop reachability reports injected through the kernel event channel (optionally inside a burst), waits across the GR restart timer; 1-3 shards. At quiescence: the fold of Apply requests per prefix equals the next-hop set of the RIB's best path and the paths tied with it on every step before router-id (reference comparator), empty when there is none; register - unregister per address equals the number of peer-learned RIB entries using that next hop and never goes negative; no eligible best path uses a next hop reported unreachable. non-trivial = at least two paths tied or a next-hop report arrived while routes existed".into(),
+            rule: "1-3 source peers (eBGP / iBGP / RR client, optional add-path towards the DUT, optional GR so that stale marking and purge happen) announcing 2-5 prefixes over 3 shared next hops with attributes from small colliding domains (so that paths tie before the router-id step); ops announce / replace / withdraw (optionally without quiescence before the next op = inside a burst), peer drop and reconnect, an import policy installed / replaced / removed with a soft reset IN of every peer (every path inserted again over itself), next-hop reachability reports injected through the kernel event channel (optionally inside a burst), waits across the GR restart timer; 1-3 shards. At quiescence: the fold of Apply requests per prefix equals the next-hop set of the RIB's best path and the paths tied with it on every step before router-id (reference comparator), empty when there is none; register - unregister per address equals the number of peer-learned RIB entries using that next hop and never goes negative; no eligible best path uses a next hop reported unreachable. non-trivial = at least two paths tied or a next-hop report arrived while routes existed".into(),
             components_real: vec!["TableManager::{insert_route,remove_route,unregister_peer,drop_stale_families,update_nexthop_validity}, TableShard::distribute_update, nht_register".into(), "table::Table::{insert,remove,drop,restale,drop_stale,update_nexthop_validity}, NlriChange::ecmp_paths".into(), "the kernel-event arm of the dispatch loop; real sessions".into()],
             components_stubbed: vec!["netlink: kernel::run_service_loop and its own refcount map are not run; requests are observed at the KernelHandle channel (H7 hook)".into(), "TCP, clock, peers".into()],
-            assumptions: vec!["VRF tables and VPN import targets are the subject of the second scenario (vrf-fib); import-policy next-hop rewrites with soft reset IN are generated here (op `pol`)".into()],
+            assumptions: vec!["VRF tables and VPN import targets are the subject of the second scenario (vrf-fib); an import policy cannot rewrite next hops in this daemon (the policy table refuses it): the `pol` op switches a MED-setting import policy and soft-resets every peer inbound".into()],
             bounds: "<=50 ops, <=3 sources, <=5 prefixes, 3 next hops, IPv4 unicast".into(),
         }
     }
@@ -198,18 +198,18 @@ async fn run(case: Json, tol: Tolerate) -> Outcome {
                 in_burst = op.at(3).as_bool();
             }
             "pol" => {
-                // the operator installs an import policy that rewrites the next hop of every route
-                // (mode 1, 2: to next hop 1 or 2) or removes it (mode 0) and soft-resets every peer
-                // inbound: each path is re-inserted with another next hop, so registrations move
+                // the operator installs an import policy (mode 1, 2: MED 10 / 20 on every route) or removes
+                // it (mode 0) and soft-resets every peer inbound: each path is inserted again over itself,
+                // which must leave the registrations and the FIB as they are
                 let mode = op.at(1).as_u64();
                 let pol = if mode == 0 {
                     None
                 } else {
                     let mut pt = table::PolicyTable::new();
                     let mut a = table::Actions::default();
-                    a.nexthop = Some(table::NexthopAction::Address(nh_addr(mode)));
-                    pt.add_statement("nh", vec![], None, a).unwrap();
-                    pt.add_policy("p", vec!["nh".into()]).unwrap();
+                    a.med = Some(table::MedAction { action_type: table::MedActionType::Replace, value: 10 * mode as i64 });
+                    pt.add_statement("m", vec![], None, a).unwrap();
+                    pt.add_policy("p", vec!["m".into()]).unwrap();
                     Some(pt.add_assignment("global", table::PolicyDirection::Import, table::Disposition::Accept, vec!["p".into()]).unwrap().1)
                 };
                 t.w.tables.import_policy.store(pol);
@@ -217,7 +217,7 @@ async fn run(case: Json, tol: Tolerate) -> Outcome {
                     let req = api::ResetPeerRequest { address: t.nodes[k].cfg.addr.to_string(), soft: true, direction: api::reset_peer_request::Direction::In as i32, ..Default::default() };
                     let _ = t.w.grpc.reset_peer(tonic::Request::new(req)).await;
                 }
-                out.hit("op.import-policy-rewrites-nexthop+soft-reset-in");
+                out.hit("op.import-policy-switched+soft-reset-in");
                 in_burst = op.at(2).as_bool();
             }
             "down" => {
